@@ -38,7 +38,7 @@ Proof.
   split; [rewrite (valid_same_core _ _ SC); apply ValidStep.valid_step_any; assumption|].
   split; [rewrite (normal_ep_same_core _ _ SC); apply ValidStep.succ_normal_ep|].
   split; [exact SC|].
-  intros HH. apply (HashInv.hash_ok_make z b m (BoardInv.Rep_RepW b HR) HA HH).
+  intros HH. apply (HashInv.hash_ok_make z gen_layout b m (BoardInv.Rep_RepW b HR) HA HH).
 Qed.
 
 (* lines of legal moves (Spec/Play.v: each move legal, by the rules, on the board on which it is played) *)
@@ -58,7 +58,7 @@ Qed.
 
 (* every move of the line is applicable where it is played: C03 / C04 apply along the line *)
 Theorem legal_line_applicable ms : forall b, Rep b -> valid (abs b) = true -> legal_line z b ms ->
-  applicable_all z b (map OpMove ms).
+  applicable_all gen_layout z b (map OpMove ms).
 Proof.
   induction ms as [|m r IH]; intros b HR HV HL; cbn [map applicable_all]; [exact I|].
   cbn [legal_line] in HL. destruct HL as [L1 L2].
